@@ -111,6 +111,43 @@ def dominated_by_guard(cfg: CFG, node_ids: Iterable[int], test_id: int, label: s
     return all(cfg.dominated_by_edge(n, test_id, label) for n in node_ids)
 
 
+_POS_OP = {ast.IsNot: ast.Is, ast.NotEq: ast.Eq, ast.NotIn: ast.In}
+
+
+def literals_of(test: ast.expr, value: bool) -> list[tuple[str, bool]]:
+    """What is known about atomic conditions when `test` evaluates to `value`: `a and b` true => a, b true; `a or b`
+    false => a, b false; `not x` flips; `a is not b` is recorded as (`a is b`, False).  Atoms are source texts."""
+    if isinstance(test, ast.UnaryOp) and isinstance(test.op, ast.Not):
+        return literals_of(test.operand, not value)
+    if isinstance(test, ast.BoolOp) and ((isinstance(test.op, ast.And) and value) or (isinstance(test.op, ast.Or) and not value)):
+        return [lit for v in test.values for lit in literals_of(v, value)]
+    if isinstance(test, ast.BoolOp):
+        return []
+    if isinstance(test, ast.Compare) and len(test.ops) == 1 and type(test.ops[0]) in _POS_OP:
+        pos = ast.Compare(left=test.left, ops=[_POS_OP[type(test.ops[0])]()], comparators=test.comparators)
+        return [(unparse(pos, 400), not value)]
+    return [(unparse(test, 400), value)]
+
+
+def known_conditions(cfg: CFG, node_ids: Iterable[int]) -> dict[str, bool]:
+    """Atomic conditions whose truth value is fixed at ALL the given CFG nodes, because every path from the entry to
+    them passes the matching edge of a test (nested `if`, guard clause with early return/continue/raise, `and`-chains
+    - the spelling does not matter)."""
+    ids = list(node_ids)
+    out: dict[str, bool] = {}
+    if not ids:
+        return out
+    for t in cfg.live():
+        if t.kind != "test" or t.ast is None:
+            continue
+        for label, val in (("true", True), ("false", False)):
+            lits = literals_of(t.ast, val)  # type: ignore[arg-type]
+            if lits and all(cfg.dominated_by_edge(n, t.id, label) for n in ids):
+                for text, v in lits:
+                    out.setdefault(text, v)
+    return out
+
+
 def simple_return_expr(fn: FuncInfo) -> list[ast.expr]:
     return [n.value for n in walk_body(fn.node) if isinstance(n, ast.Return) and n.value is not None]
 
@@ -222,4 +259,5 @@ __all__ = [
     "walk_body", "walk_local", "cfg_of", "find_calls_named", "body_calls", "check_identity_forwarding",
     "loop_var_uses", "guard_tests", "dominated_by_guard", "simple_return_expr", "local_value", "qual",
     "pfind", "pfirst", "phas", "pmatch", "ptests", "name_of", "same_var", "is_var", "canon", "ceq", "defined_by", "expand_conjuncts",
+    "known_conditions", "literals_of",
 ]
